@@ -74,6 +74,20 @@ fn main() {
             progress(&progress_path, "done");
             eprintln!("hc-random: runs={} sent={} delivered={} frames={} quiesced={} dead={} lines={}", runs, tot.0, tot.1, tot.2, tot.3, tot.4, tr.lines);
         }
+        "hc-reasm" => {
+            let seed = geti(&m, "seed", 1);
+            let runs = geti(&m, "runs", 10);
+            let start = geti(&m, "start", 0);
+            let mut tr = Trace::create(&out);
+            let mut inj = 0;
+            for i in start..start + runs {
+                progress(&progress_path, &format!("{}", i));
+                let s = hc_hostile::run_reasm(&mut tr, i, mix(seed ^ 0x4EA5, i));
+                inj += s.injected;
+            }
+            progress(&progress_path, "done");
+            eprintln!("hc-reasm: runs={} injected={} lines={}", runs, inj, tr.lines);
+        }
         "hc-hostile" => {
             let seed = geti(&m, "seed", 1);
             let runs = geti(&m, "runs", 10);
